@@ -22,8 +22,8 @@ EXTENDS TraphImpl, TraphAbs, Queries, TraphCoop, Torn, TLC
 
 Traces == Batch.traces
 
-VARIABLES tid, k, cur, ram, def, bad, dead, gens, issued
-vars == <<tid, k, cur, ram, def, bad, dead, gens, issued>>
+VARIABLES tid, k, cur, ram, def, bad, dead, gens, issued, qb
+vars == <<tid, k, cur, ram, def, bad, dead, gens, issued, qb>>
 (* issued = the largest webentity id any creation report of this trace has shown since the
    index was created or last cleared (what C12 calls "every id it issued") *)
 
@@ -245,6 +245,31 @@ SeqCrawls(A, descr, i) ==
        THEN SeqCrawls(AbsIndexBatchCrawl(A, EmptyRam, [k |-> "never", n |-> 0], descr[i].data).A, descr, i + 1)
        ELSE SeqCrawls(A, descr, i + 1)
 
+(* What a query generator would answer if it were asked on store s right now - computed by the  *)
+(* specification from the logged blocks, not taken from the code under test.  qb accumulates,  *)
+(* for every query generator still running, the intersection (lo) and union (hi) of these      *)
+(* answers over the moments of its execution.                                                  *)
+RECURSIVE DrainQ(_, _, _)
+DrainQ(s, d, g) == IF g.done THEN g ELSE DrainQ(s, d, RunGen(s, EmptyRam, d, g).g)
+IsQ(g) == g.kind \in {"qnet", "qnetslow", "qpages", "qtop", "qchildren", "qpagelinks", "qlinks"}
+QAns(s, d, g) ==
+  CASE g.kind \in {"qnet", "qnetslow"} -> { <<e[1], e[2]>> : e \in NetFast(s.trie, s.ls, g.out, g.auto) }
+    [] g.kind = "qpages" ->
+         IF \E i \in 1..Len(g.ps) : LruNode(s.trie, g.ps[i]) = 0 THEN {}
+         ELSE { p \in SeqToSet(ConcatWeDfs(s.trie, g.ps, 1)) : ~g.oc \/ p \in CrawledOf(s.trie) }
+    [] g.kind = "qtop" -> { e.l : e \in SeqToSet(TopBlocks(s.trie, s.ls, g.ps, 1000, g.depth)) }
+    [] g.kind = "qchildren" -> ChildrenBlocks(s.trie, g.weid, g.ps)
+    [] g.kind = "qpagelinks" -> { <<e[1], e[2]>> : e \in WeLinksBlocks(s.trie, s.ls, g.weid, g.ps, TRUE, TRUE, TRUE) }
+    [] g.kind = "qlinks" -> DrainQ(s, d, NewLinksQuery(g.ps, g.out)).acc
+    [] OTHER -> {}
+NewQb(post, d, gs, gs2, S) ==
+  CASE S.op = "CoopBegin" -> [j \in 1..Len(gs2) |-> LET a == QAns(post, d, gs2[j]) IN [lo |-> a, hi |-> a]]
+    [] S.op = "CoopNext"  -> [j \in 1..Len(gs) |->
+                               IF IsQ(gs[j]) /\ ~gs[j].done
+                               THEN LET a == QAns(post, d, gs[j]) IN [lo |-> qb[j].lo \cap a, hi |-> qb[j].hi \cup a]
+                               ELSE qb[j]]
+    [] OTHER -> qb
+
 RECURSIVE InterAll(_, _)
 InterAll(m, i) == IF i > Len(m) THEN {} ELSE IF i = Len(m) THEN SeqSet(m[i]) ELSE SeqSet(m[i]) \cap InterAll(m, i + 1)
 UnionAll(m) == UNION { SeqSet(m[i]) : i \in 1..Len(m) }
@@ -254,7 +279,7 @@ UnionAll(m) == UNION { SeqSet(m[i]) : i \in 1..Len(m) }
 Reattributed(b, fin, o1) ==
   { <<fin.we0[j].l, fin.we0[j].id>> : j \in 1..Len(fin.we0) } # WSet(o1)
 
-CoopClauses(st, rm, d, gs, S, post, o0, o1) ==
+CoopClauses(st, rm, d, gs, S, post, o0, o1, qb2) ==
   IF S.op = "CoopBegin"
   THEN FailNames(<< <<"bind.trie", post.trie = st.trie /\ post.ls = st.ls>>, <<"bind.wlog", S.w = <<>>>> >>)
   ELSE
@@ -286,24 +311,35 @@ CoopClauses(st, rm, d, gs, S, post, o0, o1) ==
                                                     !.crawled = { fin.pages0[j].l : j \in { i \in 1..Len(fin.pages0) : fin.pages0[i].cr } }]
                              W == SeqCrawls(A0, fin.gens, 1)
                          IN W.pages = PSet(o1) /\ W.crawled = CSet(o1) /\ W.links = OutT(o1)>>,
+      \* the answer of every query lies between the intersection and the union of what the SPECIFICATION
+      \* computes for it at each moment of its execution (qb2) ...
       <<"C16.bounds",  fin.last => \A j \in 1..Len(fin.bounds) :
                          LET b == fin.bounds[j] IN
                          /\ b.exc = ""
+                         /\ qb2[b.g].lo \subseteq SeqSet(b.result)
+                         /\ (SeqSet(b.result) \subseteq qb2[b.g].hi \/ Reattributed(b, fin, o1))>>,
+      \* ... and of what the plain requests of the code itself answered at those moments
+      <<"C16.bounds.self",  fin.last => \A j \in 1..Len(fin.bounds) :
+                         LET b == fin.bounds[j] IN
                          /\ InterAll(b.moments, 1) \subseteq SeqSet(b.result)
                          /\ (SeqSet(b.result) \subseteq UnionAll(b.moments) \/ Reattributed(b, fin, o1))>>,
+      <<"bind.moments", fin.last => \A j \in 1..Len(fin.bounds) :
+                         LET b == fin.bounds[j] IN
+                         InterAll(b.moments, 1) = qb2[b.g].lo /\ UnionAll(b.moments) = qb2[b.g].hi>>,
       \* known finding F11: query generators decide which subtree belongs to the webentity, and which
       \* webentity the other end of a link belongs to, at different moments; while another request
       \* re-attributes pages to new webentities they can report an item that qualified at no moment
       <<"C16.bounds.reattribution", fin.last => \A j \in 1..Len(fin.bounds) :
                          LET b == fin.bounds[j] IN
-                         ~(Reattributed(b, fin, o1) /\ ~(SeqSet(b.result) \subseteq UnionAll(b.moments)))>>
+                         ~(Reattributed(b, fin, o1) /\ ~(SeqSet(b.result) \subseteq qb2[b.g].hi
+                                                        /\ SeqSet(b.result) \subseteq UnionAll(b.moments)))>>
     >>)
 
-StepClauses(st, rm, d, gs, S, post, o0, iss) ==
+StepClauses(st, rm, d, gs, S, post, o0, iss, qb2) ==
   LET inv == TstInvFailure(post.trie, post.ls) IN
   IF IsCoop(S)
   THEN [names |-> (IF inv # "" THEN <<"C02.inv." \o inv, "C16.structure">> ELSE <<>>)
-                  \o CoopClauses(st, rm, d, gs, S, post, o0, S.obs),
+                  \o CoopClauses(st, rm, d, gs, S, post, o0, S.obs, qb2),
         dead |-> inv # ""]
   ELSE IF inv # ""
   THEN [names |-> <<"C02.inv." \o inv>> \o ObsClauses(st, rm, d, S, post, o0, S.obs, iss), dead |-> TRUE]
@@ -359,6 +395,7 @@ Init ==
   /\ dead = FALSE
   /\ gens = <<>>
   /\ issued = 0
+  /\ qb = <<>>
 
 Tag(j, names) == [i \in 1..Len(names) |-> <<j, names[i]>>]
 
@@ -368,7 +405,9 @@ Next ==
   /\ LET S    == Steps[k + 1]
          post == PostStore(cur, S)
          o0   == IF k = 0 \/ S.reset THEN EmptyObs ELSE Steps[k].obs
-         f0   == StepClauses(cur, ram, def, gens, S, post, o0, issued)
+         gs2  == NewGens(cur, ram, def, gens, S)
+         qb2  == NewQb(post, def, gens, gs2, S)
+         f0   == StepClauses(cur, ram, def, gens, S, post, o0, issued, qb2)
          f    == [f0 EXCEPT !.names = @ \o PairClauses(S, k + 1)
                                         \o (IF k = 0 THEN <<>> ELSE LifeClauses(S, Steps[k], post, cur, ram, def))]
      IN /\ bad' = bad \o Tag(k + 1, f.names)
@@ -377,7 +416,8 @@ Next ==
         /\ issued' = LET base == IF S.reset THEN 0 ELSE issued
                           ids == { S.created[j].id : j \in 1..Len(S.created) }
                       IN IF ids = {} THEN base ELSE Max(base, CHOOSE x \in ids : \A y \in ids : y <= x)
-        /\ gens' = NewGens(cur, ram, def, gens, S)
+        /\ gens' = gs2
+        /\ qb' = qb2
         /\ ram' = IF IsCoop(S) THEN CoopRam(ram, gens, S) ELSE NewRam(ram, S)
         /\ def' = NewDef(def, S)
   /\ k' = k + 1
